@@ -85,6 +85,9 @@ type c20Input struct {
 	Proto   string   `json:"proto,omitempty"`
 	Seg     []int    `json:"seg,omitempty"`
 	Payload []byte   `json:"payload,omitempty"`
+	// ZeroFirst: the first call on the accepted connection is a Read with an empty buffer (the
+	// documented way to force the handshake on tlcp.Conn / tls.Conn); it must select the stack too
+	ZeroFirst bool `json:"zero_first,omitempty"`
 }
 
 func c20Err(err error) int {
@@ -220,6 +223,9 @@ func c20AddCase(out *emit.Out, scenario string, in c20Input) {
 					}
 				}()
 				buf := make([]byte, 64)
+				if in.ZeroFirst {
+					buf = buf[:0]
+				}
 				_, rerr = conn.Read(buf)
 			}()
 			select {
@@ -304,6 +310,28 @@ func c20E2E(in c20Input, adapter bool) bool {
 	}
 	res := make(chan bool, 2)
 	go func() { // server: echo
+		if in.ZeroFirst {
+			// a zero-length Read forces the handshake, through the adapter as on the stack itself
+			if _, err := server.Read(nil); err != nil {
+				res <- false
+				return
+			}
+			inner := server
+			if sw, ok := server.(*pa.ProtocolSwitchServerConn); ok {
+				inner = sw.ProtectedConn()
+			}
+			done := false
+			switch c := inner.(type) {
+			case *tlcp.Conn:
+				done = c.ConnectionState().HandshakeComplete
+			case *tls.Conn:
+				done = c.ConnectionState().HandshakeComplete
+			}
+			if !done {
+				res <- false
+				return
+			}
+		}
 		buf := make([]byte, len(in.Payload))
 		if _, err := io.ReadFull(server, buf); err != nil {
 			res <- false
@@ -403,6 +431,9 @@ func runC20(p params) error {
 		for _, mn := range []byte{0, 1, 2, 3, 4, 0x0f, 0x7f, 0x80, 0xff, byte(r.IntN(256)), byte(r.IntN(256))} {
 			stream := append([]byte{22, v, mn, 0, 9}, rb(9)...)
 			c20AddCase(out, "route-minors", c20Input{Kind: "route", HasTLCP: true, HasTLS: true, Chunks: c20Chunk(r, stream, 5)})
+			if mn < 2 {
+				c20AddCase(out, "route-zero-length-first-read", c20Input{Kind: "route", HasTLCP: true, HasTLS: v != 2, Chunks: c20Chunk(r, stream, 5), ZeroFirst: true})
+			}
 		}
 	}
 	// route: early disconnect at every offset 0..6, majors 1 and 3
@@ -411,6 +442,9 @@ func runC20(p params) error {
 			stream := append([]byte{22, v, 1, 0, 2}, 9, 9)[:cut]
 			for k := 0; k < 2; k++ {
 				c20AddCase(out, "route-early-eof", c20Input{Kind: "route", HasTLCP: true, HasTLS: true, Chunks: c20Chunk(r, stream, 1+k*4)})
+			}
+			if cut%3 == 0 {
+				c20AddCase(out, "route-zero-length-first-read", c20Input{Kind: "route", HasTLCP: true, HasTLS: true, Chunks: c20Chunk(r, stream, 3), ZeroFirst: true})
 			}
 		}
 	}
@@ -468,7 +502,7 @@ func runC20(p params) error {
 		if i%3 == 0 {
 			seg = nil
 		}
-		c20AddCase(out, "e2e", c20Input{Kind: "e2e", Proto: []string{"tlcp", "tls"}[i%2], Seg: seg, Payload: rb(1 + r.IntN(3000))})
+		c20AddCase(out, "e2e", c20Input{Kind: "e2e", Proto: []string{"tlcp", "tls"}[i%2], Seg: seg, Payload: rb(1 + r.IntN(3000)), ZeroFirst: i%4 >= 2})
 	}
 	return out.Finish()
 }
